@@ -21,6 +21,7 @@ import Ogen.FloatValidateModel
 import Ogen.JsonCodecDriver
 import Ogen.GenOrderDriver
 import Ogen.AuthHeaderDriver
+import Ogen.UuidText_proof
 
 /-! Line-protocol driver over all executable models: `<model> <payload>` per line, one
     canonical output line per input line. Core-only (no Mathlib) so it links natively. -/
@@ -70,6 +71,8 @@ def dispatch (line : String) : String :=
     | "vfloat" => FloatV.floatLine payload
     | "jcodec" => JCodecDrv.codecLine payload
     | "jaccept" => JCodecDrv.acceptLine payload
+    | "uuidfmt" => UuidT.fmtLine payload
+    | "uuidparse" => UuidT.parseLine payload
     | "authz" => AuthHDrv.authzLine payload
     | "sortkeys" => GenOrderDrv.sortkeysLine payload
     | "collect" => GenOrderDrv.collectLine payload
